@@ -143,7 +143,21 @@ type engineErr struct {
 	v Iface
 }
 
-func (e engineErr) Error() string {
+func (e engineErr) Error() (out string) {
+	defer func() {
+		if r := recover(); r != nil {
+			// the interpreted Error method panicked (or needed a fork): report that instead of crashing the engine
+			if _, ok := r.(goPanicReq); ok {
+				out = "<Error() panicked>"
+				if n := len(e.s.frames); n > 0 {
+					e.s.frames = e.s.frames[:0]
+				}
+				e.s.panicSet = false
+				return
+			}
+			panic(r)
+		}
+	}()
 	fn := e.s.W.P.Prog.LookupMethod(e.v.T, nil, "Error")
 	if fn == nil {
 		return "<error>"
